@@ -104,6 +104,31 @@ def run_case(ck, desc):
     co_arr = np.asarray(oil.oil_compressibility_undersat_Spivey(T, hi, *a), dtype=float)
     if not (np.all(co > 0) and np.all(np.isfinite(co)) and np.all(co_arr > 0)):
         ck.violation("undersat-compressibility-positive", {"min": float(co.min()), "at": float(hi[int(np.argmin(co))]), "pb": pb}, desc)
+    # 7. the same ordering / inverse relations when the sweep is handed over as ONE array (float and
+    #    integer grids), as a table builder would do: array values must obey the property too
+    grid = np.unique(np.concatenate([np.round(lo), np.round(hi)]))
+    grid = grid[grid >= 15]
+    for arr, label in ((np.concatenate([lo, hi]), "f8"), (grid.astype("i8"), "i8"), (grid.astype("f4"), "f4")):
+        pf = arr.astype(float)
+        rs = np.asarray(oil.solution_gor_Standing(T, arr, *a), dtype=float)
+        bo = np.asarray(oil.b_o_Standing(T, arr, *a), dtype=float)
+        tol = 1e-9 if label != "f4" else 3e-6
+        below = pf < pb * (1 - 1e-6)
+        above = pf >= pb * (1 + 1e-6)
+        if np.any(np.diff(rs) < -tol * gor):
+            ck.violation("gor-nondecreasing", {"array_dtype": label, "min_step": float(np.min(np.diff(rs)))}, desc)
+        if np.any(np.abs(rs[above] - gor) > tol * gor):
+            ck.violation("gor-equals-initial-above-pb", {"array_dtype": label, "values": rs[above][:3], "gor_i": gor}, desc)
+        if below.any():
+            inv = np.array([oil.pressure_bubblepoint_Standing(T, api, gg, r) for r in rs[below]])
+            e = float(np.max(np.abs(inv - pf[below]) / pf[below]))
+            if not ck.margin(f"gor-inverts-bubblepoint (array {label})", e, tol):
+                ck.violation("gor-inverts-bubblepoint", {"array_dtype": label, "worst_rel": e}, desc)
+            if np.any(np.diff(bo[below]) <= 0):
+                ck.violation("bo-rises-below-pb", {"array_dtype": label, "min_step": float(np.min(np.diff(bo[below])))}, desc)
+        if above.sum() > 1 and np.any(np.diff(bo[above]) >= 0):
+            ck.violation("bo-falls-above-pb", {"array_dtype": label, "max_step": float(np.max(np.diff(bo[above])))}, desc)
+        ck.count(f"array_sweeps.{label}")
     ck.note_max("largest_bubble_point", pb)
     ck.note_max("smallest_bubble_point_neg", -pb)
     ck.count("sweeps")
